@@ -57,7 +57,7 @@ def drive(rec, ns, quick):
     for n in ns:
         lg = n.bit_length() - 1
         # --- tables
-        for inverse in (False, True):
+        for inverse in ((False, True) if n > 1 else ()):     # n = 1: the constructors return before building any table
             meta = qc.ntt_meta(n, inverse)
             count = n + sum(nn // 2 - 1 for nn in [1 << s for s in range(2, lg + 1)])
             tab = qc.powomega(n, inverse, count)
@@ -69,7 +69,7 @@ def drive(rec, ns, quick):
                            "_what": "twiddle table n=%d %s" % (n, "inverse" if inverse else "forward")})
             rec.case(("table", n, inverse))
         # --- impulses
-        for i in sorted(set([0, 1, n - 1, n // 2, rng.randrange(n), rng.randrange(n)])):
+        for i in sorted(set(t for t in [0, 1, n - 1, n // 2, rng.randrange(n), rng.randrange(n)] if t < n)):
             v = [rng.choice([U64, 1, rng.randrange(1 << 64), qc.q[k] * 3 - 1]) for k in range(4)]
             x = np.zeros((n, 4), dtype=np.uint64)
             x[i] = v
@@ -80,7 +80,7 @@ def drive(rec, ns, quick):
             if y is None:
                 rec.violation("q120_ntt_bb_avx2 n=%d wrote outside its data" % n, {"n": n})
                 continue
-            js = sorted(set([0, 1, n - 1, n // 2] + [rng.randrange(n) for _ in range(12)]))
+            js = sorted(set(t for t in [0, 1, n - 1, n // 2] + [rng.randrange(n) for _ in range(12)] if t < n))
             events.append({"e": "NttImpulse", "n": n, "i": i, "v": qc.residues(v), "js": js,
                            "out": [qc.residues(y[j]) for j in js], "_what": "impulse n=%d i=%d" % (n, i)})
         # --- convolution theorem at small n (TLC computes the negacyclic product)
@@ -121,7 +121,7 @@ def drive_module(rec, quick):
     rng = random.Random(rec.seed + 5)
     L = Lib.get()
     events = []
-    for n in ([2, 8, 64, 1024] if quick else [2, 4, 8, 16, 64, 256, 1024, 8192, 65536]):
+    for n in ([1, 2, 8, 64, 1024] if quick else [1, 2, 4, 8, 16, 64, 256, 1024, 8192, 65536]):
         mod = L.module(n, NTT120, MASK_NONE)
         for (a_size, d_size, r_size) in [(s, d, r) for s in (0, 1, 3) for d in (0, 1, 2, 4) for r in (0, 1, 3, 5)]:
             for tmp_a in (False, True):
@@ -168,7 +168,7 @@ def run(chk, replay=None):
     r = run_tlc("NttSchedule", "NttSchedule.cfg", workers=6, coverage=True, name="c03-sched")
     tlc_must_pass(r, "NttSchedule")
     chk.add_tlc(r, "symbolic schedule n=1..32: evaluation map and inverse")
-    ns = [1 << s for s in range(1, 17)]
+    ns = [1 << s for s in range(0, 17)]
     parts = [ns[i::6] for i in range(6)]
     jobs = [("q120 NTT probes n in %s" % p, drive, (p, quick)) for p in parts] + [("NTT120 module round trips", drive_module, (quick,))]
     res = isolated_many(chk, jobs, timeout=2400, nproc=7)
@@ -181,7 +181,7 @@ def run(chk, replay=None):
     chk.cov["events_validated"] = len(events)
     chk.cov["by_kind"] = {k: sum(1 for e in events if e["e"] == k) for k in ("NttTable", "NttImpulse", "NttConv", "NttSummary")}
     chk.cov["exhaustive"] = True
-    chk.cov["box"] = "schedule model n = 1..32; probes for every n = 2..65536"
+    chk.cov["box"] = "schedule model n = 1..32; probes for every n = 1..65536"
     chk.cov["rule"] = "one case = (probe kind, n, position or pattern class) / (module call shape)"
     for b in bad[:20]:
         chk.violation(events[b]["_what"] + ": differs from the exact transform of the specification", clean[b] if len(str(clean[b])) < 20000 else {"what": events[b]["_what"]})
